@@ -3,11 +3,12 @@
 //! Exhaustive enumeration (no sampling) over a stated finite space, on the real
 //! `MaterializationBus` / `ReduceOp` / `compute_emissions_digest` / frame encoders:
 //!
-//! * Phase A (order):   every slot set of size ≤ k from a slot alphabet × a 12-member payload
+//! * Phase A (order):   every slot set of size ≤ k from a slot alphabet × a 6- (quick) / 12-member payload
 //!   assignment family × EVERY permutation of the emission order × every policy pair
 //!   (11 options per channel: unregistered, Log, StrictSingle, Reduce × 8).
 //! * Phase B (algebra): every slot set of size ≤ k from the 8-slot alphabet × EVERY payload
-//!   assignment (6^k) × every policy (same on both channels) × 2 emission orders; reference fold;
+//!   assignment (6^k) × every policy (same on both channels), emitted in descending slot order
+//!   (thorough: also ascending); reference fold;
 //!   re-keying closure for the reducers that declare `is_commutative()`.
 //! * Phase C (duplicates): every slot set of size ≤ kd × every permutation × every emitted slot
 //!   re-emitted at every later position with every payload × every policy.
@@ -631,7 +632,7 @@ fn phase_a_item(u: &U, slots: &[usize], pays: &[usize]) -> Acc {
 
 // ───────────────────────────── phase B ─────────────────────────────
 
-fn phase_b_item(u: &U, slots: &[usize]) -> Acc {
+fn phase_b_item(u: &U, slots: &[usize], both_orders: bool) -> Acc {
     let mut acc = Acc::default();
     let k = slots.len();
     let asc: Vec<usize> = (0..k).collect();
@@ -648,8 +649,10 @@ fn phase_b_item(u: &U, slots: &[usize]) -> Acc {
         for p in 0..N_POL {
             let pol = (if t.0 { p } else { 0 }, if t.1 { p } else { 0 });
             let mut prev: Option<Outcome> = None;
-            for (oi, order) in [&asc, &desc].into_iter().enumerate() {
-                if k < 2 && oi == 1 {
+            // quick: one non-canonical (descending slot) order against the order-free reference;
+            // thorough: additionally the ascending order, compared with each other.
+            for (oi, order) in [&desc, &asc].into_iter().enumerate() {
+                if (k < 2 || !both_orders) && oi == 1 {
                     continue;
                 }
                 acc.runs += 1;
@@ -663,7 +666,7 @@ fn phase_b_item(u: &U, slots: &[usize]) -> Acc {
                 if let Some(f) = &prev {
                     if o != *f {
                         acc.v(format!("finalize depends on emission order: {}", differing_policy(u, &o, f, pol)),
-                            json!({"case": case_json(u, &ems, order, pol), "got": fmt_out(&o), "first_order": asc, "first_got": fmt_out(f)}));
+                            json!({"case": case_json(u, &ems, order, pol), "got": fmt_out(&o), "first_order": desc, "first_got": fmt_out(f)}));
                     }
                     continue;
                 }
@@ -860,7 +863,7 @@ fn main() {
          payloads {{'',01,FF,0102,FFx8,9 bytes}}; 11 policy options per channel (unregistered, Log, StrictSingle, Reduce x 8 ops). \
          Phase A: EVERY slot set of size 0..={k_max} x {fam_n} payload assignments (6 rotations of the payload list over the slots; thorough adds the 6 reflected rotations; injective for k<=6) x EVERY permutation of the emission order x every policy pair (121 when both channels are touched); \
          all observations (finalize channels+errors, emissions digest, v1 frames, v2 packet) must be identical across permutations and equal to a key-order reference fold; digest also under every order of the finalized slice. \
-         Phase B: every slot set of size 0..={k_max} x ALL 6^k payload assignments x every policy (same on both channels) x 2 emission orders (ascending/descending); reference fold; for reducers with is_commutative() every arrangement of a payload multiset on the keys of a channel must give the same bytes. \
+         Phase B: every slot set of size 0..={k_max} x ALL 6^k payload assignments x every policy (same on both channels), emitted in descending slot order (thorough: also ascending, compared with each other) and compared with the order-free reference fold; for reducers with is_commutative() every arrangement of a payload multiset on the keys of a channel must give the same bytes. \
          Phase C: every slot set of size 1..={k_dup} x every permutation x every (emitted position i, later position j>=i, payload q of 6): re-emitting slot i after position j must be Err(DuplicateEmission) naming that (channel,key) and the finalized result must equal the run without the duplicate. \
          distinct_nontrivial = distinct (slot set, payload assignment) cases in which some channel received >= 2 emissions (order could matter)."
     ));
@@ -920,7 +923,7 @@ fn main() {
     let mut capped = false;
     let res: Vec<Option<Acc>> = sets_b
         .par_iter()
-        .map(|s| if r.over_budget_frac(0.85) { None } else { Some(phase_b_item(&u, s)) })
+        .map(|s| if r.over_budget_frac(0.85) { None } else { Some(phase_b_item(&u, s, r.thorough())) })
         .collect();
     let mut b_runs = 0;
     for x in res {
